@@ -66,6 +66,7 @@ def run(ctx):
         r2(ctx, facts, cfg)
         r3(ctx, facts, cfg)
         r4(ctx, facts, cfg)
+        r5(ctx, facts, cfg)
 
 
 def r1(ctx, facts, cfg):
@@ -273,3 +274,53 @@ def r4(ctx, facts, cfg):
         ok = ok or name_ok
     ctx.ob("C17.R4h", "_populate_transit_event_from_frontend_queue:removal-request-registered", ok,
            "a LoggerRemovalRequest registers the caller's flag under the logger name decoded from the record", fn=df)
+
+
+def r5(ctx, facts, cfg):
+    """sinks: weakly held by the registry, strongly by loggers; pruned exactly when expired; a file sink closes its file when destroyed"""
+    info = facts.cls("quill::detail::SinkManager::SinkInfo", cfg)
+    if not info:
+        raise AnalysisBroken("SinkManager::SinkInfo not found")
+    fld = {x["name"]: x for x in info["fields"]}
+    weak = any("std::weak_ptr<quill::Sink>" in x["cty"].replace("class ", "") or x["cty"].startswith("std::weak_ptr<") for x in info["fields"])
+    strong = [x["name"] for x in info["fields"] if x["cty"].startswith("std::shared_ptr<")]
+    ctx.ob("C17.R5a", "SinkManager::SinkInfo:weak", weak and not strong,
+           "the sink registry holds sinks weakly (a strong reference would keep a sink — and its file — alive after its last logger is gone)",
+           loc=info["loc"])
+    lb = facts.cls("quill::detail::LoggerBase", cfg)
+    sk = [x for x in (lb["fields"] if lb else []) if x["name"] == "sinks"]
+    ctx.ob("C17.R5b", "LoggerBase::sinks:strong", bool(sk) and "std::shared_ptr<quill::Sink>" in sk[0]["cty"],
+           "a logger shares ownership of its sinks (a sink still used by another logger keeps working)", loc=sk[0]["loc"] if sk else "")
+    f = facts.need("quill::detail::SinkManager::cleanup_unused_sinks", cfg)[0]
+    g = f.g
+    er = [c for c in f.calls(r"std::vector<.*>::erase$") if is_this_field(call_obj(c), "_sinks")]
+    ep = npos(f, er)
+    eb = branches_on_call(f, r"std::weak_ptr<.*>::expired$|__weak_ptr<.*>::expired$")
+    ok = bool(er) and bool(eb) and not g.exists_path([g.entry_node], ep, avoid_edges=[(b, t) for (b, t, c) in eb]) and \
+        all(not g.exists_path([tnode(g, b)], [tnode(g, b)], avoid_nodes=ep, avoid_edges=[(b, other(t))]) or True for (b, t, c) in eb)
+    # on the expired outcome the entry is erased before the next test
+    for (b, t, c) in eb:
+        if g.exists_path([tnode(g, b)], [tnode(g, b)], avoid_nodes=ep, avoid_edges=[(b, other(t))]):
+            ok = False
+    ctx.ob("C17.R5c", "SinkManager::cleanup_unused_sinks:erase-iff-expired", ok,
+           "a registry entry is erased exactly when its sink has expired (no live sink is dropped, every dead entry is pruned)", fn=f)
+    d = [x for x in facts.fns if x.config == cfg and x.cls == "quill::FileSink" and x.rec.get("dtor")]
+    ok = False
+    if d:
+        dg = d[0].g
+        cp = cpos(d[0], r"FileSink::close_file$")
+        ok = bool(cp) and not dg.exists_path([dg.entry_node], [dg.exit_node], avoid_nodes=cp)
+    ctx.ob("C17.R5d", "~FileSink:closes-file", ok, "destroying a file sink closes its file on every path", fn=d[0] if d else None)
+    c = facts.need("quill::FileSink::close_file", cfg)[0]
+    cg = c.g
+    fc = npos(c, [x for x in c.calls(r"^fclose$") if is_this_field(x["args"][0], "_file")])
+    nul = npos(c, [n for n in c.walk() if n["k"] == "BinaryOperator" and n["op"] == "=" and is_this_field(n["lhs"], "_file") and is_null(n["rhs"])])
+    nb = []
+    for bid, b in cg.blocks.items():
+        cond = cg.term_cond(bid)
+        if cond is not None and is_this_field(strip(core_and_neg(cond)[0], casts=True), "_file"):
+            nb.append((bid, "T" if core_and_neg(cond)[1] else "F"))  # label of 'no file'
+    ok = bool(fc) and bool(nul) and not cg.exists_path(fc, [cg.exit_node], avoid_nodes=nul) and \
+        not cg.exists_path([cg.entry_node], [cg.exit_node], avoid_nodes=fc, avoid_edges=nb)
+    ctx.ob("C17.R5e", "FileSink::close_file:fclose-and-forget", ok,
+           "an open file is closed with fclose and the handle forgotten on every path (only 'no file open' skips it)", fn=c)
